@@ -26,7 +26,7 @@ TECHNIQUE = ("fault enumeration in virtual time: ALL sequences of per-attempt ou
              "is enumerated / drawn as well; plus a real-socket tier on 127.0.0.1 and ::1 (fd accounting via /proc/self/fd)")
 RULE = ("virtual tier: case = retries 1..3 (4 in thorough) x timeout {0.5, 1, 2.5, 6} x one outcome per potential attempt from "
         "{reply at 0.4T, empty reply at 0.3T, nothing, reply at 1.5T, two replies at 0.2T/0.6T, ICMP error at 0.5T, connection lost at "
-        "0.5T} (all sequences), called directly or through Client.get with configured timeout / retries; generated cases with retries 1..6 and event times at {0.001 .. 0.999, 1.001, 1.5, 3} x timeout; loopback tier: scripted "
+        "0.5T} (all sequences), called directly or through Client.get with configured timeout / retries; generated cases with retries 1..6 and event times at {0.001 .. 0.999, 1.001, 1.5, 2.75, 3.25} x timeout (never a whole multiple); loopback tier: scripted "
         "UDP responder and closed ports on 127.0.0.1 and ::1; both tiers also vary the environment of the call (IPv4 / IPv6 endpoint, "
         "DEBUG logging of puresnmp.transport on / off) and the size of the reply (1 .. 65507 octets, the largest UDP payload); non-trivial = >= 2 attempts and at least one non-reply outcome; distinct = "
         "the tuple itself")
